@@ -170,7 +170,7 @@ def checkAml (case impl : List String) : List Fail :=
                | none => [⟨"corr", tag ++ ",C18", "missing-panic", s!"model panics, impl emits {bs.length} bytes"⟩,
                           ⟨"prop", "C18", "not-refused", "an oversized count/size (or an invalid operand) was serialised"⟩]
                | some m =>
-                 (if m ≠ bs then [⟨"corr", tag ++ ",C15", "model", s!"model {bytesToHex (m.take 64)}… impl {bytesToHex (bs.take 64)}… (first difference at {firstDiffB m bs})"⟩] else []) ++
+                 (if m ≠ bs then [⟨"corr", tag, "model", s!"model {bytesToHex (m.take 64)}… impl {bytesToHex (bs.take 64)}… (first difference at {firstDiffB m bs})"⟩] else []) ++
                  (match t with
                   | .node op ints _ _ =>
                     if isDescriptor op then
